@@ -231,10 +231,10 @@ def check_cube(ctx, rule_rt='AGREE-5', rule_rev='PERM-5'):
                     decided = False
             if not ap:
                 got = _attr(Ir, out, 'apertures', fr)
-                ctx.expect(got is None, rule_rt, '%s: apertures stay absent' % tag, where_, 'absent parts stay absent', 'apertures read back as %r' % (got,), 'absent-apertures')
+                (ctx.undecided(rule_rt, '%s: apertures stay absent' % tag, where_, 'not modelled: %r' % (got,)) if isinstance(got, Unk) else ctx.expect(got is None, rule_rt, '%s: apertures stay absent' % tag, where_, 'absent parts stay absent', 'apertures read back as %r' % (got,), 'absent-apertures'))
             if not unc:
                 got = _attr(Ir, out, 'unc', fr)
-                ctx.expect(got is None, rule_rt, '%s: uncertainties stay absent' % tag, where_, 'absent parts stay absent', 'uncertainties read back as %r' % (got,), 'absent-unc')
+                (ctx.undecided(rule_rt, '%s: uncertainties stay absent' % tag, where_, 'not modelled: %r' % (got,)) if isinstance(got, Unk) else ctx.expect(got is None, rule_rt, '%s: uncertainties stay absent' % tag, where_, 'absent parts stay absent', 'uncertainties read back as %r' % (got,), 'absent-unc'))
     return decided
 
 
@@ -268,7 +268,7 @@ def check_conv(ctx, rule_rt='AGREE-3'):
                 decided = False
         if not ap:
             got = _attr(Ir, out, 'apertures', fr)
-            ctx.expect(got is None, rule_rt, '%s: apertures stay absent' % tag, where_, 'absent parts stay absent', 'apertures read back as %r' % (got,), 'absent-apertures')
+            (ctx.undecided(rule_rt, '%s: apertures stay absent' % tag, where_, 'not modelled: %r' % (got,)) if isinstance(got, Unk) else ctx.expect(got is None, rule_rt, '%s: apertures stay absent' % tag, where_, 'absent parts stay absent', 'apertures read back as %r' % (got,), 'absent-apertures'))
     return decided
 
 
